@@ -359,7 +359,7 @@ func genHist(r *vh.Rand) string {
 			steps = append(steps, "L"+r.Pick("X0", "X1"))
 		}
 		steps = append(steps, "L"+strings.Join(conf, ";"))
-		if r.Chance(1, 4) {
+		if r.Chance(1, 4) || ((kind == "br" || kind == "bg") && r.Chance(1, 3)) {
 			steps = append(steps, "L"+r.Pick("X0", "X1")) // a rejected reload must change nothing
 		}
 		// requests: credentials made for this conf and for EARLIER confs, against both products
